@@ -12,7 +12,7 @@
 From Coq Require Import List ZArith Bool.
 Import ListNotations.
 From Goat Require Import Model.Client Proofs.ClientBase Proofs.ClientInv Proofs.ClientLog Proofs.ClientProps Proofs.ClientRoute Proofs.ClientNI Proofs.ClientFin Proofs.ClientOrder.
-From Goat Require Model.Server Proofs.ServerProofs Proofs.ServerInv Proofs.ServerLive Proofs.ServerRoute.
+From Goat Require Model.Server Proofs.ServerProofs Proofs.ServerInv Proofs.ServerLive Proofs.ServerRoute Proofs.ServerWriter Proofs.ServerOrder.
 Open Scope Z_scope.
 
 (* ids: the ids of calls are pairwise distinct as 64-bit values as long as fewer than 2^64 ids have been
@@ -192,6 +192,47 @@ Theorem C05_server_unary_once : forall ls s, Server.lrun Server.init ls = Some s
                /\ (tail = [] \/ (ServerInv.rd_exited s = true /\ exists f, tail = [f])).
 Proof. exact (ServerRoute.srv_unary_once Server.nworkers). Qed.
 Print Assumptions C05_server_unary_once.
+
+(* ORDER, list level, all runs. For stream handler h (record k): the envelopes h took from its queue, in the order it
+   took them, are a sub-sequence ([subseq]: order kept, nothing twice) of the envelopes of its id read from the
+   transport during its registration, in the order read - whatever else was interleaved on the wire. If none was
+   dropped (a drop happens only once h's context is done) the sequence read is EXACTLY: those taken, then the one
+   queued, then the one in the read loop's hands, then at most one abandoned when the connection ended. (The server
+   routes by id alone; the source of an envelope plays no part.) *)
+Theorem C05_server_order : forall ls s, Server.lrun Server.init ls = Some s ->
+  forall h k, nth_error (Server.hs s) h = Some k -> Server.h_unary k = false ->
+    ServerWriter.subseq (ServerRoute.takes h (Server.log s)) (ServerRoute.routed h (Server.fid (Server.h_req k)) (Server.log s))
+    /\ (ServerOrder.drops h (Server.log s) = [] ->
+        exists tail, ServerRoute.routed h (Server.fid (Server.h_req k)) (Server.log s)
+                     = ServerRoute.takes h (Server.log s) ++ ServerRoute.queue k ++ ServerRoute.held s h ++ tail
+                     /\ (tail = [] \/ (ServerInv.rd_exited s = true /\ exists f, tail = [f]))).
+Proof. exact (ServerOrder.srv_stream_order Server.nworkers). Qed.
+Print Assumptions C05_server_order.
+
+(* ... and what RecvMsg RETURNED to handler h, in order, is exactly the decoding ([recv_res]: message, EOF, status,
+   unmarshal error) of the envelopes it took: with C05_server_order, the messages a handler sees are those the peer
+   sent under its id, in the order sent *)
+Theorem C05_server_recv_results : forall ls s, Server.lrun Server.init ls = Some s ->
+  forall h, ServerOrder.recv_ops h (Server.log s) = map Server.recv_res (ServerRoute.takes h (Server.log s)).
+Proof. exact (ServerOrder.srv_recv_results Server.nworkers). Qed.
+Print Assumptions C05_server_recv_results.
+
+(* non-vacuity: two streams whose messages are interleaved on the wire, each handler receiving twice: each took its
+   own two messages in the order sent, nothing was dropped *)
+Example C05_server_order_ex :
+  let mk := fun id b => Server.mkFrame (mkEnv id (Some (MdOk 0)) None b None false) (Server.MStream 3) 2 1 in
+  exists s, Server.lrun Server.init (ServerLive.labels_of
+              [Server.ADeliver (mk 1 None); Server.ADeliver (mk 2 None);
+               Server.AHandlerStep 0 Server.HRecv; Server.AHandlerStep 1 Server.HRecv;
+               Server.ADeliver (mk 1 (Some 11)); Server.ADeliver (mk 2 (Some 21));
+               Server.AHandlerStep 1 Server.HRecv; Server.AHandlerStep 0 Server.HRecv;
+               Server.ADeliver (mk 2 (Some 22)); Server.ADeliver (mk 1 (Some 12)); Server.ADeliver (mk 1 (Some 13))]) = Some s
+    /\ ServerRoute.takes 0 (Server.log s) = [mk 1 (Some 11); mk 1 (Some 12)]
+    /\ ServerRoute.takes 1 (Server.log s) = [mk 2 (Some 21); mk 2 (Some 22)]
+    /\ ServerOrder.recv_ops 0 (Server.log s) = [Server.ORecvMsg 11; Server.ORecvMsg 12]
+    /\ ServerRoute.routed 0 1 (Server.log s) = [mk 1 (Some 11); mk 1 (Some 12); mk 1 (Some 13)]
+    /\ ServerOrder.drops 0 (Server.log s) = [] /\ ServerOrder.drops 1 (Server.log s) = [].
+Proof. eexists. vm_compute. repeat split. Qed.
 
 (* non-vacuity of the server theorems: a stream that received two messages (one taken, one queued) and a unary
    request handed to a worker *)
